@@ -491,6 +491,7 @@ func (n *normalizer) callee(info *types.Info, call *ast.CallExpr) (*types.Func, 
 func (n *normalizer) stmts(list []ast.Stmt, info *types.Info, stack map[*types.Func]bool, depth int) []ast.Stmt {
 	var out []ast.Stmt
 	for i := 0; i < len(list); i++ {
+		list[i] = n.exprInline(list[i], info, stack)
 		s := list[i]
 		// "v, err := helper(..)" directly followed by "if <test of v or err> { .. }"
 		if as, ok := s.(*ast.AssignStmt); ok && i+1 < len(list) && depth <= 3 {
@@ -536,6 +537,124 @@ func (n *normalizer) stmts(list []ast.Stmt, info *types.Info, stack map[*types.F
 		out = append(out, rep...)
 	}
 	return out
+}
+
+// exprInline replaces, anywhere in the statement, calls of helpers whose body is a single "return <expression>" by
+// that expression (arguments substituted). Only with plain operands as arguments - they may be repeated or dropped
+// without changing what is evaluated - and only for helpers whose expression calls nothing (so that evaluating it in
+// place, possibly not at all under && / ||, has no effect that could be missed).
+func (n *normalizer) exprInline(s ast.Stmt, info *types.Info, stack map[*types.Func]bool) ast.Stmt {
+	res := astutil.Apply(s, nil, func(c *astutil.Cursor) bool {
+		call, ok := c.Node().(*ast.CallExpr)
+		if !ok {
+			return true
+		}
+		fn, d := n.callee(info, call)
+		if fn == nil || stack[fn] || d.pkg != n.curPkg || call.Ellipsis.IsValid() {
+			return true
+		}
+		if len(d.body.List) != 1 || d.decl.Type.TypeParams != nil {
+			return true
+		}
+		ret, ok := d.body.List[0].(*ast.ReturnStmt)
+		if !ok || len(ret.Results) != 1 {
+			return true
+		}
+		sig := fn.Type().(*types.Signature)
+		if sig.Variadic() || sig.Results().Len() != 1 {
+			return true
+		}
+		pure := true
+		ast.Inspect(ret.Results[0], func(nd ast.Node) bool {
+			switch nd.(type) {
+			case *ast.CallExpr, *ast.FuncLit:
+				pure = false
+			}
+			return pure
+		})
+		if !pure {
+			return true
+		}
+		// parameters -> arguments
+		dinfo := d.pkg.TypesInfo
+		subst := map[types.Object]ast.Expr{}
+		var pn []*ast.Ident
+		if d.decl.Type.Params != nil {
+			for _, f := range d.decl.Type.Params.List {
+				if len(f.Names) == 0 {
+					pn = append(pn, nil)
+				}
+				pn = append(pn, f.Names...)
+			}
+		}
+		if len(pn) != len(call.Args) {
+			return true
+		}
+		for i, a := range call.Args {
+			if !pureOperand(a) {
+				return true
+			}
+			if pn[i] != nil && pn[i].Name != "_" {
+				if obj := dinfo.Defs[pn[i]]; obj != nil {
+					subst[obj] = a
+				}
+			}
+		}
+		if d.decl.Recv != nil {
+			selx, ok := unparen(call.Fun).(*ast.SelectorExpr)
+			if !ok || !pureOperand(selx.X) || len(d.decl.Recv.List) != 1 {
+				return true
+			}
+			xt := n.typeOf(info, selx.X)
+			if xt == nil || !types.Identical(xt, sig.Recv().Type()) {
+				return true // an implicit & or * would be needed
+			}
+			if len(d.decl.Recv.List[0].Names) == 1 && d.decl.Recv.List[0].Names[0].Name != "_" {
+				if obj := dinfo.Defs[d.decl.Recv.List[0].Names[0]]; obj != nil {
+					subst[obj] = selx.X
+				}
+			}
+		}
+		e := n.clone(ret.Results[0]).(ast.Expr)
+		bad := false
+		e = astutil.Apply(e, nil, func(c2 *astutil.Cursor) bool {
+			id, ok := c2.Node().(*ast.Ident)
+			if !ok {
+				return true
+			}
+			oid, _ := n.orig(id).(*ast.Ident)
+			if oid == nil {
+				return true
+			}
+			obj := dinfo.Uses[oid]
+			if obj == nil {
+				return true
+			}
+			if a, ok := subst[obj]; ok {
+				c2.Replace(&ast.ParenExpr{X: n.clone(a).(ast.Expr), Lparen: id.Pos(), Rparen: id.End()})
+				return true
+			}
+			if pk, isPkg := obj.(*types.PkgName); isPkg {
+				name, good := n.ensureImport(pk.Imported())
+				if !good {
+					bad = true
+				}
+				id.Name = name
+			}
+			return true
+		}).(ast.Expr)
+		if bad {
+			return true
+		}
+		c.Replace(&ast.ParenExpr{X: e, Lparen: call.Pos(), Rparen: call.End()})
+		n.Inlined[d.key]++
+		n.changed[n.curFile] = true
+		return true
+	})
+	if st, ok := res.(ast.Stmt); ok {
+		return st
+	}
+	return s
 }
 
 // labelOf returns the label of an enclosing statement, giving it one if it has none yet.
